@@ -537,6 +537,49 @@ MUTANTS = [
     ("c02-pseudo-inverse", ["C02"], "PINV1", C,
      "    return np.linalg.inv(mat)",
      "    return np.linalg.pinv(mat)"),
+    # ---- C07
+    ("c07-automaton-drops-shortlex", ["C07"], "THR1", G + "coxeter.py",
+     "            self.coxeter_matrix,\n            shortlex\n        )",
+     "            self.coxeter_matrix\n        )"),
+    ("c07-matrix-entry-drops-flag", ["C07"], "THR1", G + "automata/coxeter_automaton.py",
+     "        return generate_automaton(small_roots, lex_reduced)",
+     "        return generate_automaton(small_roots)"),
+    ("c07-transition-constant-flag", ["C07"], "THR1", G + "automata/coxeter_automaton.py",
+     "apply_gen_to_node(small_roots, k, node, i, lex_reduced = lex_reduced)",
+     "apply_gen_to_node(small_roots, k, node, i, lex_reduced = True)"),
+    ("c07-even-when-not-asked", ["C07"], "EVEN2", G + "coxeter.py",
+     "        if even_length:\n            return aut.even_automaton()",
+     "        if not even_length:\n            return aut.even_automaton()"),
+    ("c07-rename-sorted-names", ["C07"], "ORD2", G + "coxeter.py",
+     "        aut.rename_generators(self.ordered_gens)",
+     "        aut.rename_generators(sorted(self.generators))"),
+    ("c07-infinity-includes-one", ["C07"], "INFC", G + "automata/coxeter_automaton.py",
+     "if m > 0 else -1",
+     "if m > 1 else -1"),
+    ("c07-infinity-arm-zero", ["C07"], "INFC", G + "automata/coxeter_automaton.py",
+     "if m > 0 else -1",
+     "if m > 0 else 0"),
+    ("c07-edge-without-reduced-guard", ["C07"], "GEO1", G + "automata/coxeter_automaton.py",
+     "                        if node[k] == 1:\n                                continue\n",
+     ""),
+    ("c07-pruning-includes-k", ["C07"], "LEX1", G + "automata/coxeter_automaton.py",
+     "                for j in range(k):",
+     "                for j in range(k + 1):"),
+    ("c07-pruning-unconditional", ["C07"], "LEX1", G + "automata/coxeter_automaton.py",
+     "        if lex_reduced:\n                for j in range(k):",
+     "        if True:\n                for j in range(k):"),
+    ("c07-descent-exact-zero", ["C07"], "TOL2", G + "automata/coxeter_automaton.py",
+     "        while not next(filter(lambda x: x < -1e-6, root), None):",
+     "        while min(root) >= 0:"),
+    ("c07-pairing-exact-zero", ["C07"], "TOL2", G + "automata/coxeter_automaton.py",
+     "                        if f > 1e-6:",
+     "                        if f > 0:"),
+    ("c07-small-root-exact-bounds", ["C07"], "TOL2", G + "automata/coxeter_automaton.py",
+     "                                if f > -1 + 1e-6 and f < -1e-6:",
+     "                                if f > -1 and f < 0:"),
+    ("c07-swap-table-unguarded-index", ["C07"], "SENT1", G + "automata/coxeter_automaton.py",
+     "                        newnode = tuple(\n                                apply_gen_to_node(small_roots, k, node, i, lex_reduced = lex_reduced)\n                                for i in range(nroots))",
+     "                        image = [r_.neighbors[k].id if r_.neighbors[k] else -1 for r_ in small_roots]\n                        newnode = [node[j] if j >= 0 else 0 for j in image]\n                        newnode[k] = 1\n                        if lex_reduced:\n                                for j in range(k):\n                                        newnode[image[j]] = 1\n                        newnode = tuple(newnode)"),
     # ---- rules written from round 8
     ("c09-label-view-whole-deepcopy", ["C09"], "DC1", G + "automata/fsa.py",
      "        self._graph_dict = {v: copy.deepcopy(neighbors)\n                            for v, neighbors in graph_dict.items()}\n",
@@ -796,6 +839,11 @@ SEEDED = [
     # check when first evaluated
     ("r9-C02a-1", "C02", "HOM1"), ("r9-C02b-1", "C02", "HOM1"),
     ("r9-C02b-2", "C02", "LK1"),
+    # round 9 (C07 only, six changes, unsteered): 0 of 6 caught by C07's
+    # check when first evaluated
+    ("r9-C07a-1", "C07", "TOL2"), ("r9-C07a-2", "C07", "SENT1"),
+    ("r9-C07b-1", "C07", "KEY1"), ("r9-C07b-2", "C07", "N1"),
+    ("r9-C07c-2", "C07", "SENT1"),
 ]
 # seeded changes no static rule here decides (numerical / heuristic):
 # C14-1, C15-1, C15-2, C19-1, C20-2, r2-C12-2, r2-C14-1, r2-C15-2, r2-C19-1,
@@ -805,8 +853,8 @@ SEEDED = [
 # r7-C04-1, r7-C04-2, r7-C05-1, r7-C06-1, r7-C08-2, r7-C09-1, r7-C15-1,
 # r7-C16-1, r7-C17-2, r7-C18-1, r7-C19-2, r7-C20-1, r8-C01-1, r8-C03-1,
 # r8-C05-1, r8-C06-2, r8-C08-2, r8-C09-1, r8-C09-2, r8-C10-1, r8-C15-1,
-# r8-C15-2, r8-C18-2, r8-C19-1, r8-C19-2, r9-C02a-2, r9-C02c-1, r9-C02c-2
-# -- see DESIGN.md section 6.2
+# r8-C15-2, r8-C18-2, r8-C19-1, r8-C19-2, r9-C02a-2, r9-C02c-1, r9-C02c-2,
+# r9-C07c-1 -- see DESIGN.md section 6.2
 
 # behaviour-preserving edits: every listed property must stay silent (exit 0)
 NEUTRAL = [
@@ -972,6 +1020,27 @@ NEUTRAL = [
     ("n-elliptic-explicit-slices", ["C02", "C13"], H,
      "        mat[1:, 1:] = block_elliptic",
      "        mat[1:dimension + 1, 1:dimension + 1] = block_elliptic"),
+    ("n-cox-flag-by-keyword", ["C07"], G + "automata/coxeter_automaton.py",
+     "        return generate_automaton(small_roots, lex_reduced)",
+     "        return generate_automaton(small_roots, lex_reduced=lex_reduced)"),
+    ("n-cox-infinity-literal-left", ["C07"], G + "automata/coxeter_automaton.py",
+     "if m > 0 else -1",
+     "if 0 < m else -1"),
+    ("n-cox-infinity-inverted", ["C07"], G + "automata/coxeter_automaton.py",
+     "[-math.cos(math.pi/m) if m > 0 else -1 for m in row]",
+     "[-1 if m <= 0 else -math.cos(math.pi/m) for m in row]"),
+    ("n-cox-automaton-flag-keyword", ["C07"], G + "coxeter.py",
+     "            self.coxeter_matrix,\n            shortlex\n        )",
+     "            self.coxeter_matrix,\n            lex_reduced=shortlex\n        )"),
+    ("n-cox-even-else", ["C07"], G + "coxeter.py",
+     "        if even_length:\n            return aut.even_automaton()\n\n        return aut",
+     "        if not even_length:\n            return aut\n\n        return aut.even_automaton()"),
+    ("n-cox-swap-table-guarded", ["C07"], G + "automata/coxeter_automaton.py",
+     "                        newnode = tuple(\n                                apply_gen_to_node(small_roots, k, node, i, lex_reduced = lex_reduced)\n                                for i in range(nroots))",
+     "                        image = [r_.neighbors[k].id if r_.neighbors[k] else -1 for r_ in small_roots]\n                        newnode = [1 if i == k else (node[image[i]] if image[i] != -1 else 0) for i in range(nroots)]\n                        if lex_reduced:\n                                for j in range(k):\n                                        if image[j] >= 0:\n                                                newnode[image[j]] = 1\n                        newnode = tuple(newnode)"),
+    ("n-cox-tolerance-named", ["C07"], G + "automata/coxeter_automaton.py",
+     "                        if f > 1e-6:",
+     "                        if f > 1e-06 * 1.0:"),
     ("n-irrep-guarded-loop", ["C17"], G + "lie/core.py",
      "            for i in range(max(0, j - r + k), min(j+1, k+1)):\n",
      "            for i in range(min(j, k) + 1):\n                if r - k - j + i < 0:\n                    continue\n"),
@@ -998,7 +1067,7 @@ NEUTRAL = [
 # Every property's check must stay silent on each of them.
 NEUTRAL_PATCHES = [f"N{i}-{k}" for i in range(1, 35) for k in range(1, 6)] \
     + ["N35-1"] \
-    + [f"N{i}-{k}" for i in range(36, 43) for k in range(1, 6)]
+    + [f"N{i}-{k}" for i in range(36, 44) for k in range(1, 6)]
 
 
 def _apply(root, rel, old, new):
@@ -1116,7 +1185,7 @@ def run(pids=None, jobs=16, root=None, quiet=False):
                          os.path.join(seeded_dir, sid, "patch.diff"),
                          None, None, src))
     neutral_dir = os.path.join(os.path.dirname(seeded_dir), "neutral")
-    allp = ["C01", "C02", "C03", "C04", "C05", "C06", "C08", "C09", "C10", "C11",
+    allp = ["C01", "C02", "C03", "C04", "C05", "C06", "C07", "C08", "C09", "C10", "C11",
             "C12", "C13", "C14", "C15", "C16", "C17", "C18", "C19", "C20"]
     for nid in NEUTRAL_PATCHES:
         sel = [p for p in allp if want is None or p in want]
